@@ -1621,3 +1621,145 @@ Lemma chan_demo_run :
   csnapshot (crun cw0 (firstn 7 chan_demo)) =
     [ (152284485, idC, 827974963, []); (827974963, idA, 0, [(idC, 208, 12)]) ].
 Proof. split; vm_compute; reflexivity. Qed.
+
+(* ------------------------------------------------------------------------- *)
+(* 8. Forwarding: a proxied client's packets, whole or in fragments            *)
+
+(* Session.write keeps the device (ID, job) of the packet in everything it queues, whoever writes *)
+Lemma frag_list_dev dev pid job len n : forall pos w,
+  In w (frag_list dev pid job len n pos) -> wp_dev w = dev /\ wp_pid w = pid /\ wp_job w = job /\ wp_len w = len.
+Proof.
+  induction n as [|n IH]; intros pos w I; cbn [frag_list] in I; [destruct I|].
+  destruct I as [<-|I]; [cbn; auto|eapply IH; eauto].
+Qed.
+Lemma session_write_dev F sid dev pid job size w :
+  In w (session_write F sid dev pid job size) -> wp_dev w = dev /\ wp_pid w = pid /\ wp_job w = job.
+Proof.
+  unfold session_write. destruct ((F <=? 0) || (size <=? F)).
+  - intros [<-|[]]. cbn. auto.
+  - intros I. apply frag_list_dev in I as (A & B & C & _). auto.
+Qed.
+(* a packet above the limit really is cut into at least two fragments *)
+Lemma session_write_fragments F sid dev pid job size :
+  0 < F -> F < size -> 2 <= frag_count F size /\
+  session_write F sid dev pid job size = frag_list dev pid job (frag_count F size) (Z.to_nat (frag_count F size)) 0.
+Proof.
+  intros HF HS. split.
+  - unfold frag_count. assert (1 <= size / F) by (apply Z.div_le_lower_bound; lia).
+    destruct ((size / F + 1) * F <? size); lia.
+  - unfold session_write. replace (F <=? 0) with false by lia. replace (size <=? F) with false by lia. reflexivity.
+Qed.
+
+Lemma recv_frag_spec fr k s w fr' e N :
+  recv_frag fr k s w = (fr', e) -> In (wp_dev w) N -> Forall (eff_ok N []) e.
+Proof.
+  unfold recv_frag. intros H I.
+  destruct (id_eqb (s_id s) (wp_dev w)) eqn:E; cbn [negb] in H; [|injection H as <- <-; constructor].
+  apply id_eqb_eq in E.
+  assert (HH : Forall (eff_ok N []) (if wp_pid w <? MvRefresh then [] else [EHandle (s_id s) (wp_dev w) (wp_job w)])).
+  { destruct (wp_pid w <? MvRefresh); [constructor|]. apply Forall_one. cbn. auto. }
+  destruct (wp_len w =? 1); [injection H as <- <-; exact HH|].
+  destruct (fr_get fr k (wp_job w)) as [c|].
+  - destruct (c + 1 =? wp_len w); injection H as <- <-; [exact HH|constructor].
+  - destruct (0 <? wp_pos w); injection H as <- <-; constructor.
+Qed.
+
+(* every entry is handed to the session of the device it names *)
+Lemma deliver_spec A t fr w t' fr' e N :
+  deliver A t fr w = (t', fr', e) -> wf t -> In (wp_dev w) N -> wf t' /\ Forall (eff_ok N []) e.
+Proof.
+  unfold deliver. intros H W I. destruct (wp_len w =? 0).
+  - set (n := Leaf (wp_dev w) (wp_pid w) (wp_job w) (if wp_pid w =? SvHello then BHello else BData)) in *.
+    destruct (id_eqb (wp_dev w) A).
+    + destruct (talk 0 t (Single n [])) as [[t1 e1] r1] eqn:T. injection H as <- <- <-.
+      apply talk_spec in T as (W1 & _ & F1 & _); [|exact W]. split; [exact W1|].
+      refine (List.Forall_impl _ _ F1). intros x Hx. eapply eff_ok_mono; [| |exact Hx].
+      * intros y [<-|[]]. exact I.
+      * apply incl_refl.
+    + destruct (talk_sub 0 t n false) as [[t1 e1] r1] eqn:T. injection H as <- <- <-.
+      eapply talk_sub_spec with (N := N) (T := []) in T as (W1 & _ & F1 & _); [|exact W|exact I]. auto.
+  - destruct (lookup true t (wp_dev w)) as [|s|s] eqn:L; try (injection H as <- <- <-; split; [exact W|constructor]).
+    destruct (recv_frag fr (hash (wp_dev w)) s w) as [fr1 e1] eqn:R. injection H as <- <- <-.
+    split; [exact W|]. eapply recv_frag_spec; eauto.
+Qed.
+
+Lemma deliver_all_spec A q : forall t fr t' fr' e N,
+  deliver_all A t fr q = (t', fr', e) -> wf t -> Forall (fun w => In (wp_dev w) N) q ->
+  wf t' /\ Forall (eff_ok N []) e.
+Proof.
+  induction q as [|w q IH]; intros t fr t' fr' e N H W Q; cbn [deliver_all] in H.
+  - injection H as <- <- <-. split; [exact W|constructor].
+  - destruct (deliver A t fr w) as [[t1 fr1] e1] eqn:D. destruct (deliver_all A t1 fr1 q) as [[t2 fr2] e2] eqn:DA.
+    injection H as <- <- <-. pose proof (Forall_inv Q) as Qw. pose proof (Forall_inv_tail Q) as Qq.
+    eapply deliver_spec in D as (W1 & F1); [|exact W|exact Qw]. eapply IH in DA as (W2 & F2); [|exact W1|exact Qq].
+    split; [exact W2|]. apply Forall_app. auto.
+Qed.
+
+Definition fop_devs (o : fop) : list id := match o with FHello d _ => [d] | FSend d _ _ _ => [d] | FPump => [] end.
+
+Lemma fstep_spec F A w o w' e r N :
+  fstep F A w o = (w', e, r) -> wf (fw_tbl w) -> Forall (fun x => In (wp_dev x) N) (fw_q w) ->
+  wf (fw_tbl w') /\ Forall (fun x => In (wp_dev x) (N ++ fop_devs o)) (fw_q w') /\ Forall (eff_ok N []) e.
+Proof.
+  intros H W Q.
+  assert (Q' : forall D, Forall (fun x => In (wp_dev x) (N ++ D)) (fw_q w)).
+  { intros D. refine (List.Forall_impl _ _ Q). intros x Hx. apply in_or_app. auto. }
+  assert (SW : forall d pid job size, Forall (fun x => In (wp_dev x) (N ++ [d])) (session_write F A d pid job size)).
+  { intros d pid job size. apply List.Forall_forall. intros x Hx. apply session_write_dev in Hx as (-> & _).
+    apply in_or_app. right. left. reflexivity. }
+  destruct o as [d j|d pid job size|]; cbn [fstep fop_devs] in *.
+  - destruct (id_empty d). { injection H as <- <- <-. split; [exact W|]. split; [apply Q'|constructor]. }
+    destruct (plookup true (fw_cl w) d); injection H as <- <- <-; cbn [fw_tbl fw_q];
+      (split; [exact W|]); (split; [|constructor]); try apply Q'.
+    + apply Forall_app. split; [apply Q'|]. apply Forall_app. split; apply SW.
+    + apply Forall_app. split; [apply Q'|apply SW].
+  - destruct (id_empty d). { injection H as <- <- <-. split; [exact W|]. split; [apply Q'|constructor]. }
+    destruct (plookup true (fw_cl w) d); injection H as <- <- <-; cbn [fw_tbl fw_q];
+      (split; [exact W|]); (split; [|constructor]); try apply Q'.
+    apply Forall_app. split; [apply Q'|apply SW].
+  - destruct (deliver_all A (fw_tbl w) (fw_fr w) (fw_q w)) as [[t1 fr1] e1] eqn:D. injection H as <- <- <-.
+    eapply deliver_all_spec in D as (W1 & F1); [|exact W|exact Q]. cbn. split; [exact W1|]. split; [constructor|exact F1].
+Qed.
+
+Fixpoint fops_devs (ops : list fop) : list id :=
+  match ops with [] => [] | o :: r => fop_devs o ++ fops_devs r end.
+
+(* all histories: whatever is handled (touched, re-keyed) upstream on behalf of a forwarded packet is
+   handled in the session whose ID is the device that packet named at the Proxy *)
+Lemma frun_spec F A ops : forall w w' es N,
+  frun F A w ops = (w', es) -> wf (fw_tbl w) -> Forall (fun x => In (wp_dev x) N) (fw_q w) ->
+  wf (fw_tbl w') /\ Forall (Forall (eff_ok (N ++ fops_devs ops) [])) es.
+Proof.
+  induction ops as [|o ops IH]; intros w w' es N H W Q; cbn [frun fops_devs] in *.
+  - injection H as <- <-. split; [exact W|constructor].
+  - destruct (fstep F A w o) as [[w1 e1] r1] eqn:S. destruct (frun F A w1 ops) as [w2 l] eqn:R. injection H as <- <-.
+    eapply fstep_spec in S as (W1 & Q1 & F1); [|exact W|exact Q]. eapply IH in R as (W2 & F2); [|exact W1|exact Q1].
+    split; [exact W2|]. constructor.
+    + refine (List.Forall_impl _ _ F1). intros x Hx. eapply eff_ok_mono; [| |exact Hx]; [|apply incl_refl].
+      intros y Hy. apply in_or_app. auto.
+    + rewrite app_assoc. exact F2.
+Qed.
+
+Lemma fw0_wf A : wf (fw_tbl (fw0 A)).
+Proof.
+  unfold fw0. cbn [fw_tbl]. destruct (talk 0 ∅ (Single (Leaf A SvHello 1 BHello) [])) as [[t e] r] eqn:T.
+  apply talk_spec in T as (W & _); [exact W|apply wf_empty].
+Qed.
+
+Lemma forwarded_handled_in_own_session F A ops w' es e sid pdev job :
+  frun F A (fw0 A) ops = (w', es) -> In e es -> In (EHandle sid pdev job) e ->
+  sid = pdev /\ In pdev (fops_devs ops).
+Proof.
+  intros R Ie Ix. eapply frun_spec with (N := []) in R as (_ & Fo); [|apply fw0_wf|constructor].
+  rewrite List.Forall_forall in Fo. specialize (Fo _ Ie). rewrite List.Forall_forall in Fo. exact (Fo _ Ix).
+Qed.
+
+(* non-vacuity: C behind A's Proxy sends a small packet and one above the limit (F = 100: 3 fragments) *)
+Definition fwd_demo : list fop := [FHello idC 5; FPump; FSend idC 192 6 40; FSend idC 193 7 250; FPump].
+Lemma fwd_demo_run :
+  (let '(w, es) := frun 100 idA (fw0 idA) (firstn 4 fwd_demo) in (fw_q w, es)) =
+    ([WP idC 192 6 0 0; WP idC 193 7 0 3; WP idC 193 7 1 3; WP idC 193 7 2 3],
+     [[]; [ETouch idC idC; ENew idC; ETouch idC idC]; []; []]) /\
+  (frun 100 idA (fw0 idA) fwd_demo).2 =
+    [[]; [ETouch idC idC; ENew idC; ETouch idC idC]; []; []; [ETouch idC idC; EHandle idC idC 6; EHandle idC idC 7]].
+Proof. split; vm_compute; reflexivity. Qed.
